@@ -932,7 +932,7 @@ UNIT = Unit(
         # the `TryStart { .. }` arm of execute_instruction (rule R13: the arm's body; the other ~150 arms of
         # that function stay an assumed contract)
         Fn(F, "impl KotoVm :: fn execute_instruction", props=("C04", "C07"), rename="execute_instruction__try_start_arm",
-           fragment=dict(start="let catch_ip = self.ip() + catch_offset as u32;", to_block_end=True,
+           fragment=dict(start="let catch_ip = self.ip()", to_block_end=True,
                          sig="fn execute_instruction(&mut self, arg_register: u8, catch_offset: u16)"),
            spec=r"""
     requires
